@@ -655,8 +655,32 @@ fn run_first_use(run: &mut Run) {
     run.extra.insert("first_use_cases_loaded".into(), json!(loaded));
 }
 
+/// Blend probes for the build differential: for every blend mode a few of C03's probe sprites (channel-exhaustive
+/// squares for the separable modes, colour-grid blocks for the HSL modes, one random sprite each), rendered and
+/// hashed. Whatever the arithmetic is, every build has to produce the same pixels.
+pub const BLEND_PROBES: u64 = 19 * 4;
+pub fn digest_probe(k: u64, seed: u64) -> String {
+    use super::c03::{render, spec_channel, spec_hsl, spec_random, HSL_VALS_QUICK};
+    let (mode, var) = ((k / 4) as u16, k % 4);
+    let hsl = (15..19).contains(&mode);
+    let spec = match var {
+        0 if hsl => spec_hsl(mode, &HSL_VALS_QUICK[..], 0, 255, 255, 255, 255),
+        1 if hsl => spec_hsl(mode, &HSL_VALS_QUICK[..], 2, 200, 255, 255, 128),
+        2 if hsl => spec_hsl(mode, &HSL_VALS_QUICK[..], 3, 255, 131, 77, 255),
+        0 => spec_channel(mode, 255, 255, 255, 255),
+        1 => spec_channel(mode, 200, 255, 255, 128),
+        2 => spec_channel(mode, 255, 131, 77, 255),
+        _ => spec_random(mode, mix(seed, 0xB1E0 + mode as u64), false),
+    };
+    match guarded(|| render(&spec, mode)) {
+        Ok(Ok(px)) => format!("probe:{:016x}", h(&format!("{:?}", px))),
+        Ok(Err(f)) => format!("probe-err:{}", f.signature),
+        Err((loc, msg)) => format!("panic:{}:{}", short_loc(&loc), msg.chars().take(60).collect::<String>()),
+    }
+}
+
 pub fn obs_digest_main(seed: u64, n: u64) -> ! {
-    let lines = par_chunks(16, n, Vec::new, |acc: &mut Vec<(u64, String)>, i| acc.push((i, digest_case(seed, i))));
+    let lines = par_chunks(16, n + BLEND_PROBES, Vec::new, |acc: &mut Vec<(u64, String)>, i| acc.push((i, if i < n { digest_case(seed, i) } else { digest_probe(i - n, seed) })));
     let mut all: Vec<(u64, String)> = lines.into_iter().flatten().collect();
     all.sort();
     for (i, d) in all {
@@ -680,7 +704,7 @@ fn run_digest(profile: &str, seed: u64, n: u64) -> Result<Vec<String>, String> {
 }
 
 pub fn run(run: &mut Run) {
-    run.rule = "cases: loadable files (well-formed, plus hostile files that were accepted) x a generated list of API calls (every accessor kind with in-range arguments) evaluated (a) in list order, in a seeded permuted order and on a second pass, (b) concurrently on a shared &AsepriteFile from T in 2..16 threads (barrier start, own permutation per thread), (c) on a second load of the same bytes (whole-API observation equal); (d) a seeded corpus (a fifth of it carrying odd bodies in chunks of the ignored types) is observed by four builds of the library (opt-level 3 with overflow checks + debug assertions, opt-level 3 without, opt-level 0 with, and opt-level 3 without the optional `utils` feature) and once more without a `log` backend installed (every other process installs one that formats each record) and the digests (including tile lookups at extreme coordinates) must be identical; (f) in fresh processes, 16 threads load and observe the same file as the first thing the process does (lazy one-time initialisation under contention) and must all see what a single-threaded load sees; (e) Send + Sync of AsepriteFile and its reference types is instantiated in a separate crate whose Send/Sync compile error is the violation. non-trivial: call list with >= 8 distinct calls including an image-producing call, T >= 2; distinct by file hash and schedule".into();
+    run.rule = "cases: loadable files (well-formed, plus hostile files that were accepted) x a generated list of API calls (every accessor kind with in-range arguments) evaluated (a) in list order, in a seeded permuted order and on a second pass, (b) concurrently on a shared &AsepriteFile from T in 2..16 threads (barrier start, own permutation per thread), (c) on a second load of the same bytes (whole-API observation equal); (d) a seeded corpus (a fifth of it carrying odd bodies in chunks of the ignored types, a fifth non-zero z-index bytes; plus 76 blend probe sprites - channel-exhaustive squares, colour-grid blocks and random tuples for each of the 19 modes) is observed by four builds of the library (opt-level 3 with overflow checks + debug assertions, opt-level 3 without, opt-level 0 with, and opt-level 3 without the optional `utils` feature) and once more without a `log` backend installed (every other process installs one that formats each record) and the digests (including tile lookups at extreme coordinates) must be identical; (f) in fresh processes, 16 threads load and observe the same file as the first thing the process does (lazy one-time initialisation under contention) and must all see what a single-threaded load sees; (e) Send + Sync of AsepriteFile and its reference types is instantiated in a separate crate whose Send/Sync compile error is the violation. non-trivial: call list with >= 8 distinct calls including an image-producing call, T >= 2; distinct by file hash and schedule".into();
     run.assumptions = vec!["the harness does not control the thread schedule; (e) is decided by the compiler".into(), "Debug output is compared by length only (hash-map order is documented as arbitrary)".into()];
     // (e)
     match std::env::var("C16_TRAITS").unwrap_or_default().as_str() {
@@ -727,7 +751,7 @@ pub fn run(run: &mut Run) {
                 let strip = |s: &String| -> String { if *p == "noutils" && s.contains(" ok:") { s.rsplitn(2, ':').nth(1).unwrap_or(s).to_string() } else { s.clone() } };
                 if d.get(i).map(&strip) != Some(strip(a)) {
                     let f = Failure::new("profile-dependent", format!("case {} observed differently by builds: checked = {:?}, {} = {:?}", i, a, p, d.get(i))).with(json!({"seed": seed, "case": i}));
-                    run.direct(|| json!({"digest_case": i, "digest_seed": seed}), Err(f));
+                    run.direct(|| json!({"digest_case": i, "digest_seed": seed, "digest_n": n}), Err(f));
                 }
             }
         }
@@ -750,7 +774,8 @@ pub fn replay(case: &serde_json::Value) -> CheckResult {
         return Ok(Outcome::new(true, 0));
     }
     if let (Some(i), Some(s)) = (case.get("digest_case").and_then(|x| x.as_u64()), case.get("digest_seed").and_then(|x| x.as_u64())) {
-        println!("digest in this build: {}", digest_case(s, i));
+        let n = case.get("digest_n").and_then(|x| x.as_u64()).unwrap_or(u64::MAX);
+        println!("digest in this build: {}", if i < n { digest_case(s, i) } else { digest_probe(i - n, s) });
         return Ok(Outcome::new(false, 0));
     }
     let tape = tape_from_case(case).ok_or_else(|| Failure::new("bad-replay", "no tape in replay file"))?;
